@@ -527,6 +527,10 @@ def rule_split(ctx: Ctx, prog: Program) -> None:
             n_loops += 1
             rv = l.iter_value
             parts = rv.stop - rv.start if rv.__class__.__name__ == "RangeVal" else None
+            if parts is None:
+                # `for part in <parts computed by something else>`: the arithmetic of the parts is not in this loop; no verdict on it
+                raise AnalysisError("Problem.split: the splitting loop does not run over a range of part numbers (the parts are computed elsewhere): "
+                                    "the partition clauses of R-SPLIT have no model of this shape")
             # (iv) number of parts bounded by the domain size
             f = r.state.facts
             size = hi - lo + ONE
